@@ -32,6 +32,8 @@ def plan(tier, seed):
         fam = ['bimodal', 'chain', 'chain', 'bimodal'][i % 4]
         out.append({'fam': fam, 's': seed, 'p': NUM, 'i': 100000 + i,
                     'k': {'nce': 1 + i % 3, 'exclude': 'rand', 'third': i % 8 == 0}})
+    for i in range(24 if tier == 'quick' else 400):        # simultaneous hits split by the look-back cut
+        out.append({'fam': 'tiecut', 's': seed, 'p': NUM, 'i': 300000 + i, 'k': {'order': scenes.ORDERS[i % 4]}})
     for j, h in enumerate(BOUNDARY_H):
         for nb in (0, 1, 2):      # 0: exactly h, 1: next float below, 2: next float above
             out.append({'fam': 'boundary', 'h': h, 'nb': nb, 's': seed, 'p': NUM, 'i': 200000 + 3 * j + nb})
